@@ -654,6 +654,126 @@ def arrayDiffLoop (t : NT) (o : DiffOpts) : List Int → List Int → Nat → Na
 
 def arrayDiff (t : NT) (o : DiffOpts) (l1 l2 : List Int) : Nat × Nat := arrayDiffLoop t o l1 l2 0 0
 
+/-! ### floating-point elements over the whole IEEE value domain (NaN, ±Inf, -0.0)
+
+`array_diff` never looks at the bits of a float32 / float64 element: it forms `fabs(a - b)` (resp. `(B - A) / A`) and
+compares with `>`.  What these operations can tell apart is: a finite number, a NaN (any payload, quiet or signalling,
+either sign - all of them propagate alike), `+Inf`, `-Inf`.  `-0.0` is the finite number 0 (`0.0 - -0.0 = 0.0`,
+`fabs(-0.0) < DBL_EPSILON`).  The operations below are the IEEE-754 ones on that domain; finite values stay in eighths. -/
+
+inductive FV where
+  | fin (v : Int)
+  | nan
+  | pinf
+  | ninf
+deriving DecidableEq, Repr, Inhabited
+
+namespace FV
+
+/-- IEEE `a - b`: NaN propagates, `Inf - Inf` (same sign) is NaN -/
+def sub : FV → FV → FV
+  | .nan, _ => .nan
+  | _, .nan => .nan
+  | .fin a, .fin b => .fin (a - b)
+  | .fin _, .pinf => .ninf
+  | .fin _, .ninf => .pinf
+  | .pinf, .pinf => .nan
+  | .pinf, _ => .pinf
+  | .ninf, .ninf => .nan
+  | .ninf, _ => .ninf
+
+/-- `fabs` -/
+def abs : FV → FV
+  | .fin a => .fin a.natAbs
+  | .nan => .nan
+  | _ => .pinf
+
+/-- IEEE `a > b`: false as soon as one side is a NaN -/
+def gt : FV → FV → Bool
+  | .nan, _ => false
+  | _, .nan => false
+  | .fin a, .fin b => decide (a > b)
+  | .fin _, .pinf => false
+  | .fin _, .ninf => true
+  | .pinf, .pinf => false
+  | .pinf, _ => true
+  | .ninf, _ => false
+
+/-- `H4_DBL_ABS_EQUAL(x, 0.0)` = `fabs(x - 0.0) < DBL_EPSILON` (false for NaN and the infinities) -/
+def isZero : FV → Bool
+  | .fin a => a == 0
+  | _ => false
+
+end FV
+
+/-- the value of `per` in `PER_F`: -1 (initial value), a non-negative ratio, `+Inf`, NaN -/
+inductive Per where
+  | neg1
+  | ratio (num den : Nat)
+  | inf
+  | nan
+deriving DecidableEq, Repr, Inhabited
+
+/-- `ABS((double)(d) / (double)a)` with the IEEE division: NaN propagates, `Inf/Inf` and `0/0` are NaN, `Inf/x` and `x/0`
+    are infinite, `x/Inf` is 0.  (`ABS(x)` is `x >= 0 ? x : -x`: a NaN stays a NaN.) -/
+def absQuot : FV → FV → Per
+  | .nan, _ => .nan
+  | _, .nan => .nan
+  | .fin d, .fin a => if a = 0 then (if d = 0 then .nan else .inf) else .ratio d.natAbs a.natAbs
+  | .fin _, _ => .ratio 0 1
+  | _, .fin _ => .inf
+  | _, _ => .nan
+
+/-- `(float)per > err_rel` (IEEE `>`) -/
+def perGt (p : Per) (pr8 : Int) : Bool :=
+  match p with
+  | .neg1 => decide (-8 > pr8)
+  | .ratio n d => decide ((n : Int) * 8 > pr8 * (d : Int))
+  | .inf => true
+  | .nan => false
+
+/-- the macro `PER_F(A, B)`: `(per, not_comparable, both_zero)` -/
+def perF (a b : FV) : Per × Bool × Bool :=
+  let bz := a.isZero && b.isZero
+  if !a.isZero then (absQuot (b.sub a) a, false, bz) else (.neg1, true, bz)
+
+/-- the element test of the `DFNT_FLOAT` / `DFNT_DOUBLE` branches of `array_diff` on the whole value domain:
+    `-p`: `not_comparable && !both_zero` or `(float)per > err_rel`; otherwise `fabs(a - b) > err_limit` -/
+def differsF (o : DiffOpts) (a b : FV) : Bool :=
+  if o.pr8 ≠ 0 then
+    let r := perF a b
+    if r.2.1 && !r.2.2 then true else perGt r.1 o.pr8
+  else ((a.sub b).abs).gt (.fin o.tl8)
+
+/-- **the element test of `array_diff` with the special values**: the integer types have none -/
+def differsV (t : NT) (o : DiffOpts) (a b : FV) : Bool :=
+  match t with
+  | .f32 | .f64 => differsF o a b
+  | _ =>
+    match a, b with
+    | .fin x, .fin y => differs t o x y
+    | _, _ => false
+
+def notComparableV (t : NT) (o : DiffOpts) (a b : FV) : Bool :=
+  match t with
+  | .f32 | .f64 => decide (o.pr8 ≠ 0) && a.isZero && !b.isZero
+  | _ =>
+    match a, b with
+    | .fin x, .fin y => notComparable t o x y
+    | _, _ => false
+
+/-- the loop of `array_diff` over buffers that may hold NaN / ±Inf -/
+def arrayDiffLoopV (t : NT) (o : DiffOpts) : List FV → List FV → Nat → Nat → Nat × Nat
+  | a :: as, b :: bs, n, pr =>
+    if differsV t o a b then
+      let n' := n + 1
+      if notComparableV t o a b || decide (n' ≤ o.maxErr) then arrayDiffLoopV t o as bs n' (pr + 1)
+      else arrayDiffLoopV t o as bs n' pr
+    else arrayDiffLoopV t o as bs n pr
+  | _, _, n, pr => (n, pr)
+
+def arrayDiffV (t : NT) (o : DiffOpts) (l1 l2 : List FV) : Nat × Nat := arrayDiffLoopV t o l1 l2 0 0
+
 /-- `strcmp` (ASCII names) -/
 def strcmp : Str → Str → Ordering
   | [], [] => .eq
